@@ -348,8 +348,10 @@ impl Tokenizer {
                     if byte_level.use_regex {
                         Box::new(pre_tokenizers::Split::gpt2())
                     } else {
+                        // `(?s)` so that `.` also matches "\n"; otherwise
+                        // newlines fall between matches and are removed.
                         let noop_split = pre_tokenizers::SplitOptions {
-                            pattern: r".*",
+                            pattern: r"(?s).*",
                             invert: true,
                             ..Default::default()
                         };
@@ -588,7 +590,7 @@ impl Tokenizer {
                 .start;
             self.model
                 .encode_with_offsets(chunk, &mut |offset, token| {
-                    offsets.push(start_offset + base_offset + map_offset(offset));
+                    offsets.push(start_offset + map_offset(base_offset + offset));
                     tokens.push(token);
                 })?;
         }
